@@ -21,16 +21,16 @@ var stateDom = []string{"StateAlive", "StateSuspect", "StateDead", "StateLeft"}
 
 // canonical names of the abstraction's variables
 const (
-	vOK     = "ok"      // record found for the claimed name
-	vS0     = "S0"      // record state at entry
-	vOrd    = "ord"     // compare(claim.Incarnation, record.Incarnation) at entry
-	vOrd0   = "ord0"    // compare(claim.Incarnation, 0) for a freshly inserted record
-	vSelf   = "self"    // the claim names the local node
-	vLeft   = "left"    // Leave has begun
-	vIPOK   = "ipOK"    // Config.IPAllowed(claim.Addr) == nil
-	vAge    = "age"     // compare(time.Since(record.StateChange), DeadNodeReclaimTime)
-	vTimer  = "timer"   // a suspicion timer exists for the claimed name
-	vBoot   = "boot"    // local announcement (bootstrap parameter)
+	vOK     = "ok"    // record found for the claimed name
+	vS0     = "S0"    // record state at entry
+	vOrd    = "ord"   // compare(claim.Incarnation, record.Incarnation) at entry
+	vOrd0   = "ord0"  // compare(claim.Incarnation, 0) for a freshly inserted record
+	vSelf   = "self"  // the claim names the local node
+	vLeft   = "left"  // Leave has begun
+	vIPOK   = "ipOK"  // Config.IPAllowed(claim.Addr) == nil
+	vAge    = "age"   // compare(time.Since(record.StateChange), DeadNodeReclaimTime)
+	vTimer  = "timer" // a suspicion timer exists for the claimed name
+	vBoot   = "boot"  // local announcement (bootstrap parameter)
 	vReclCf = "m.config.DeadNodeReclaimTime>=1"
 )
 
